@@ -552,6 +552,10 @@ def finding_key(role, site, scn, specs, impl):
             return "invoke-receiver-register" if has("receiver") else "invoke-interface-package"
         if has("receiver") and method_callee:
             return "entry-receiver-empty"
+        if has("context"):
+            # static call of an address-taken function: its points-to candidate has an empty Context (same cause as for
+            # function values), e.g. `context: "^$"` identifies the call
+            return "funcvalue-context-empty"
         return "static-alias-candidate"
     # sink / sanitizer / validator
     if form in ("MethodValue", "MethodExpr"):
@@ -579,8 +583,23 @@ def prepare_layout(chk, li, work, tier):
     n, P = lay.n, lay.P
     e2e = {"source": [{"package": "^" + esc(P) + "$", "method": "^(%s|%s)$" % (n["Src"], n["MSrc"])}],
            "sink": [{"package": esc(P) + "$", "method": "^(%s|%s)$" % (n["Snk"], n["MSnk"])}], "sanitizer": [], "validator": []}
-    taint = [e2e] + taint
-    slicing = [{"backtrace": e2e["sink"]}] + slicing
+    # order of the problems in the configuration: identifiers of the type kinds (field / alloc / store / receive) come
+    # first, in the middle and last but one; call problems in between and last; the end-to-end call problem in the middle
+    ncall = nprob
+    call_idx = list(range(ncall))
+    type_idx = list(range(ncall, len(taint)))
+    h = ncall // 2
+    tail = [type_idx[-1], call_idx[-1]] if li % 2 == 0 else [call_idx[-1], type_idx[-1]]
+    order = [type_idx[0]] + call_idx[:h] + type_idx[1:-1] + ["e2e"] + call_idx[h:-1] + tail
+    taint = [e2e if k == "e2e" else taint[k] for k in order]
+    slicing = [{"backtrace": e2e["sink"]} if k == "e2e" else slicing[k] for k in order]
+    e2e_idx = order.index("e2e")
+    if li % 2 == 1:
+        # make sure the LAST problem of this layout selects field reads, receives, allocations and a field store
+        tpn = "^" + esc(lay.pn) + "$"
+        taint[-1] = {"source": [{"package": tpn, "type": lay.T, "field": "^F$"}, {"package": tpn, "type": "^chan ", "kind": "channel receive"},
+                                {"package": tpn, "type": "^\\*" + lay.U + "$"}],
+                     "sink": [{"type": lay.T, "field": "^G$", "kind": "store"}], "sanitizer": [], "validator": []}
     cfgp = os.path.join(work, "config%d.yaml" % li)
     open(cfgp, "w").write(config_json(taint, slicing))
     e2ep = os.path.join(work, "e2e%d.yaml" % li)
@@ -599,12 +618,12 @@ def prepare_layout(chk, li, work, tier):
     dump = os.path.join(work, "dump%d.json" % li)
     rc, out = vlib.sh([os.path.join(vlib.BIN, "c04dump"), "-dir", d, "-config", cfgp, "-e2e", e2ep, "-o", dump], timeout=900)
     return dict(lay=lay, d=d, scen=scen, opsx=opsx, taint=taint, slicing=slicing, e2e=e2e, cfgp=cfgp, e2ep=e2ep, dump=dump,
-                rc=rc, out=out, li=li)
+                rc=rc, out=out, li=li, e2e_idx=e2e_idx)
 
 
 def run_layout(chk, ctx, work, model, stats, distinct, tier):
     lay, d, scen, opsx, taint, slicing, e2e = (ctx[k] for k in ("lay", "d", "scen", "opsx", "taint", "slicing", "e2e"))
-    cfgp, e2ep, dump, li = ctx["cfgp"], ctx["e2ep"], ctx["dump"], ctx["li"]
+    cfgp, e2ep, dump, li, e2e_idx = ctx["cfgp"], ctx["e2ep"], ctx["dump"], ctx["li"], ctx["e2e_idx"]
     if ctx["rc"] != 0:
         raise vlib.BuildError("c04dump failed on layout %d (%s)" % (li, lay.P), ctx["out"])
     D = json.load(open(dump))
@@ -785,9 +804,17 @@ def run_layout(chk, ctx, work, model, stats, distinct, tier):
     for sid, s in sites.items():
         scn = s.get("_scn")
         me = M["E"][sid]
-        impl_e = [s["src"], s["bt"], s["val"] or "0" * nT, s["dir_sink"]]
+        impl_e = [s["src"], s["bt"], s["val"] or "0" * nT, s["dir_sink"], s["entry_sink"], "1" if s["noi"] else "0"]
+        # config-wide oracles: IsNodeOfInterest (IsSomeSource / IsSomeSink of the real Config) must hold iff SOME problem,
+        # in whatever position, accepts the instruction as source or (entry-candidate) sink
+        noi_spec = ("1" in s["src"]) or ("1" in s["entry_sink"])
+        stats["noi_checked"] += 1
+        if s["noi"] != noi_spec:
+            violate("unexplained:node-of-interest:call", "IsNodeOfInterest(%s) = %s but the per-problem oracles say %s (problems accepting it: sources %s, sinks %s)"
+                    % (s["pos"], s["noi"], noi_spec, [i for i, c in enumerate(s["src"]) if c == "1"], [i for i, c in enumerate(s["entry_sink"]) if c == "1"]),
+                    {"layout": lay.P, "site": {k: v for k, v in s.items() if not k.startswith("_")}})
         # (b) tie: faithful model == impl on every observable, for every site (scenario or not)
-        for name, a, b in zip(["source", "backtrace", "validator", "sink-direct"], impl_e, me):
+        for name, a, b in zip(["source", "backtrace", "validator", "sink-direct", "entry-sink", "node-of-interest"], impl_e, me):
             stats["evaluations"] += len(a)
             if name == "validator" and s["instr"] != "call":
                 continue
@@ -941,6 +968,21 @@ def run_layout(chk, ctx, work, model, stats, distinct, tier):
                         stats["agree_pos"] += 1
                     if a[pi] != b[pi]:
                         stats["stale"] += 1
+        noi_spec = ("1" in op["src"]) or ("1" in op["entry_sink"])
+        stats["noi_checked"] += 1
+        if op["noi"]:
+            stats["noi_true"] += 1
+            stats["noi_positions"].update(("first" if i == 0 else "last" if i == nT - 1 else "middle")
+                                          for i, c in enumerate(op["src"]) if c == "1" or op["entry_sink"][i] == "1")
+        if op["noi"] != noi_spec or op["noi"] != bool(op.get("synthetic_node")):
+            violate("unexplained:node-of-interest:" + op["op"],
+                    "%s at %s: IsNodeOfInterest = %s, graph node present = %s, but the per-problem oracles say %s (accepting problems: sources %s, sinks %s of %d)"
+                    % (op["op"], op["pos"], op["noi"], bool(op.get("synthetic_node")), noi_spec, [i for i, c in enumerate(op["src"]) if c == "1"],
+                       [i for i, c in enumerate(op["entry_sink"]) if c == "1"], nT), {"layout": lay.P, "op": op})
+        if op["entry_sink"] != mo_[6] or ("1" if op["noi"] else "0") != mo_[7]:
+            stats["model_mismatch"] += 1
+            violate("unexplained:type-kind:%s:node-of-interest" % op["op"], "entry-sink / node-of-interest verdicts of %s at %s differ from the model"
+                    % (op["op"], op["pos"]), {"layout": lay.P, "op": op, "model": mo_})
         if op.get("synthetic_node") and op["syn_sink"] != op["sink"]:
             violate("unexplained:synthetic-node-sink", "isSink on the synthetic node of %s differs from the instruction-level verdict" % op["pos"],
                     {"op": op})
@@ -949,7 +991,7 @@ def run_layout(chk, ctx, work, model, stats, distinct, tier):
         chk.notes.append("layout %d: generated operations without a matching SSA instruction: %s" % (li, missing_ops[:5]))
     stats["ops"] += len(ops)
 
-    # ---- end to end: flows of taint.Analyze vs the real classification of problem 0
+    # ---- end to end: flows of taint.Analyze vs the real classification of the call problem (index e2e_idx)
     flows = set()
     for f in D["flows"] or []:
         a, b = f["src_pos"].rsplit(":", 1)[0], f["sink_pos"].rsplit(":", 1)[0]
@@ -963,8 +1005,8 @@ def run_layout(chk, ctx, work, model, stats, distinct, tier):
         if "source" not in pr or "sink" not in pr:
             continue
         (ssid, ss), (ksid, ks) = pr["source"], pr["sink"]
-        is_src = bit(ss["src"], 0)
-        is_sink = any(bit(a, 0) for nd in ks["nodes"] or [] for a in (nd["arg_sink"] or []))
+        is_src = bit(ss["src"], e2e_idx)
+        is_sink = any(bit(a, e2e_idx) for nd in ks["nodes"] or [] for a in (nd["arg_sink"] or []))
         want = is_src and is_sink
         got = ("%s:%d" % (ss["file"], ss["line"]), "%s:%d" % (ks["file"], ks["line"])) in flows
         stats["e2e_pairs"] += 1
@@ -976,6 +1018,15 @@ def run_layout(chk, ctx, work, model, stats, distinct, tier):
                     % ("reports" if got else "does not report", ss["pos"], ks["pos"], is_src, is_sink),
                     {"layout": lay.P, "source_site": {k: v for k, v in ss.items() if not k.startswith("_")},
                      "sink_site": {k: v for k, v in ks.items() if not k.startswith("_")}, "flows": sorted(flows), "e2e_problem": e2e})
+    # non-call identifiers in the FIRST of three problems: the flows must be reported
+    for label, l1, l2 in lay.noncall:
+        stats["e2e_noncall"] += 1
+        if ("main.go:%d" % l1, "main.go:%d" % l2) not in flows:
+            violate("e2e:noncall:" + label, "taint.Analyze does not report the %s flow main.go:%d -> main.go:%d; the field-read / channel-receive / "
+                    "allocation sources and the field-store sink are identifiers of the first of three taint-tracking problems" % (label, l1, l2),
+                    {"layout": lay.P, "flows": sorted(flows), "e2e_config": open(e2ep).read()})
+        else:
+            stats["e2e_noncall_found"] += 1
     if D.get("errors"):
         chk.notes.append("layout %d analysis errors: %s" % (li, D["errors"][:2]))
     stats["sites"] += len(sites)
@@ -993,7 +1044,8 @@ def run_matcher(chk, work, model, stats, distinct, tier):
     vals = ["", "a", "ab", "b", "pkg/x", "x", "store", "T"]
     pats = ["", "a", "^a$", "b", "^ab", "x$", "a|x", ".*", "^$", "pkg", "[a-b]+", "T"]
     kinds = ["", "store", "channel receive", "x"]
-    roles = ["source", "sink", "sanitizer", "validator", "backtrace", "some-source", "some-sink"]
+    roles = ["source", "sink", "sanitizer", "validator", "backtrace", "some-source", "some-sink", "some-sanitizer",
+             "some-validator", "some-backtrace"]
     cases = []
     N = 4000 if tier == "quick" else 40000
     for i in range(N):
@@ -1016,7 +1068,21 @@ def run_matcher(chk, work, model, stats, distinct, tier):
                     cand[f] = v
             if rnd(4):
                 cand["kind"] = specs[0].get("kind", "")
-        cases.append({"specs": specs, "compiled": rnd(5) != 0, "role": roles[rnd(len(roles))], "cand": cand})
+        role = roles[rnd(len(roles))]
+        case = {"specs": specs, "compiled": rnd(5) != 0, "role": role, "cand": cand}
+        if role.startswith("some-"):
+            # config-wide oracle: the interesting identifier list is the FIRST, a MIDDLE or the LAST of 1..4 problems
+            k = 1 + rnd(4)
+            pos = rnd(k)
+            probs = []
+            for j in range(k):
+                if j == pos:
+                    probs.append(specs)
+                else:
+                    probs.append([{f: pats[1 + rnd(len(pats) - 1)] for f in REGEX_FIELDS if rnd(4) == 0} for _ in range(rnd(3))])
+            case["problems"] = probs
+            case["pos"] = "only" if k == 1 else "first" if pos == 0 else "last" if pos == k - 1 else "middle"
+        cases.append(case)
     # systematic part: one field at a time, empty / matching / non-matching, for every field
     for f in FIELDS:
         for pv in ["", "a", "^a$"]:
@@ -1029,6 +1095,26 @@ def run_matcher(chk, work, model, stats, distinct, tier):
                             sp["package"] = other
                             c["package"] = other
                         cases.append({"specs": [sp], "compiled": comp, "role": "source", "cand": c})
+    # systematic part for the config-wide oracles: call and NON-CALL identifier kinds (field read, allocation of a type,
+    # channel receive, field store) in the first / middle / last problem of 2 and 3 problems
+    kinds_sc = [({"package": "^pkg$", "method": "^a$"}, {"package": "pkg", "method": "a", "context": "x"}),
+                ({"package": "pkg", "type": "^T$", "field": "^a$"}, {"package": "pkg", "type": "T", "field": "a", "context": "x"}),
+                ({"package": "pkg", "type": "T"}, {"package": "pkg", "type": "T"}),
+                ({"type": "T", "kind": "channel receive"}, {"package": "pkg", "type": "T", "kind": "channel receive"}),
+                ({"type": "T", "field": "a", "kind": "store"}, {"package": "pkg", "type": "T", "field": "a", "kind": "store"})]
+    for role in [r for r in roles if r.startswith("some-")]:
+        for k in (2, 3):
+            for pos in range(k):
+                for sp, cand in kinds_sc:
+                    for filler in ([], [{"method": "zz"}]):
+                        for comp in (True, False):
+                            if not comp:
+                                sp2 = {f: v.strip("^$") for f, v in sp.items()}
+                            else:
+                                sp2 = sp
+                            probs = [([sp2] if j == pos else list(filler)) for j in range(k)]
+                            cases.append({"specs": [sp2], "problems": probs, "compiled": comp, "role": role, "cand": cand,
+                                          "pos": "first" if pos == 0 else "last" if pos == k - 1 else "middle"})
     inp = os.path.join(work, "match_in.json")
     outp = os.path.join(work, "match_out.json")
     json.dump(cases, open(inp, "w"))
@@ -1041,10 +1127,17 @@ def run_matcher(chk, work, model, stats, distinct, tier):
     L = []
     for i, c in enumerate(cases):
         L.append("MB")
-        L += [spec_line("tmp", sp, c["compiled"]) for sp in c["specs"]]
-        L.append(cid_line("MC\t%d" % i, c["cand"]))
+        if "problems" in c:
+            for j, pl in enumerate(c["problems"]):
+                if j:
+                    L.append("MP")
+                L += [spec_line("tmp", sp, c["compiled"]) for sp in pl]
+            L.append(cid_line("MS\t%d" % i, c["cand"]))
+        else:
+            L += [spec_line("tmp", sp, c["compiled"]) for sp in c["specs"]]
+            L.append(cid_line("MC\t%d" % i, c["cand"]))
     mout = run_model(model, rx, "\n".join(L) + "\n", work, "matcher")
-    rx.ensure([pp for c in cases if c["compiled"] for pp in ideal_pairs(c["specs"], [c["cand"]])])
+    rx.ensure([pp for c in cases if c["compiled"] for pl in c.get("problems", [c["specs"]]) for pp in ideal_pairs(pl, [c["cand"]])])
     mod = {}
     for l in mout.split("\n"):
         p = l.split("\t")
@@ -1055,11 +1148,18 @@ def run_matcher(chk, work, model, stats, distinct, tier):
         stats["matcher_cases"] += 1
         # the property's reading of one specification list (compiled identifiers): every non-empty field matched by
         # its own pattern, kinds equal
-        if c["compiled"]:
-            idl = classify_ideal(rx, c["specs"], [c["cand"]])
-        else:
-            idl = any(all(sp.get(f, "") in ("", c["cand"].get(f, "")) for f in REGEX_FIELDS) and sp.get("kind", "") == c["cand"].get("kind", "")
-                      for sp in c["specs"])
+        # for the config-wide oracles: IsSomeX cid <=> EXISTS a problem (in any position) whose list accepts cid
+        idl = False
+        for pl in c.get("problems", [c["specs"]]):
+            if c["compiled"]:
+                idl = idl or classify_ideal(rx, pl, [c["cand"]])
+            else:
+                idl = idl or any(all(sp.get(f, "") in ("", c["cand"].get(f, "")) for f in REGEX_FIELDS)
+                                 and sp.get("kind", "") == c["cand"].get("kind", "") for sp in pl)
+        if "problems" in c:
+            stats["some_cases"] += 1
+            if real[i]:
+                stats["some_pos"][c["pos"]] = stats["some_pos"].get(c["pos"], 0) + 1
         if real[i] or idl:
             distinct.add(("matcher", json.dumps(c, sort_keys=True)))
         if real[i] == int(idl):
@@ -1070,11 +1170,13 @@ def run_matcher(chk, work, model, stats, distinct, tier):
         detail = dict(c, impl=real[i], faithful_model=mod[i], ideal=idl)
         if real[i] != mod[i]:
             stats["model_mismatch"] += 1
-            key = "unexplained:matcher"
+            key = "unexplained:config-wide-oracle:" + c["role"] if "problems" in c else "unexplained:matcher"
         else:
-            key = "interface-vs-package-regex" if any(sp.get("interface", "") != "" for sp in c["specs"]) else "unexplained:matcher-ideal"
+            allsp = [sp for pl in c.get("problems", [c["specs"]]) for sp in pl]
+            key = "interface-vs-package-regex" if any(sp.get("interface", "") != "" for sp in allsp) else "unexplained:matcher-ideal"
         what = "TaintSpec/SlicingSpec matcher (%s, %s): implementation %s, property %s, model %s for specs %s candidate %s" % (
-            c["role"], "compiled" if c["compiled"] else "uncompiled", real[i], idl, mod[i], json.dumps(c["specs"]), json.dumps(c["cand"]))
+            c["role"], "compiled" if c["compiled"] else "uncompiled", real[i], idl, mod[i],
+            ("problems (in config order) " + json.dumps(c["problems"])) if "problems" in c else json.dumps(c["specs"]), json.dumps(c["cand"]))
         if chk.violation(key, what, "") is False:
             stats["known"][key] = stats["known"].get(key, 0) + 1
         else:
@@ -1102,7 +1204,8 @@ def run(chk):
     os.makedirs(work)
     stats = {"evaluations": 0, "ideal_evals": 0, "agree": 0, "agree_pos": 0, "deviations": 0, "model_mismatch": 0, "stale": 0,
              "sites": 0, "scenario_sites": 0, "ops": 0, "formchk": 0, "formchk_bad": 0, "e2e_pairs": 0, "e2e_flows": 0,
-             "regex_pairs": 0, "problems": 0, "interface_spec_cases": 0, "matcher_cases": 0, "forms": {}, "known": {}, "stale_forms": {}, "violations": {},
+             "regex_pairs": 0, "problems": 0, "interface_spec_cases": 0, "noi_checked": 0, "noi_true": 0, "noi_positions": set(),
+             "e2e_noncall": 0, "e2e_noncall_found": 0, "some_cases": 0, "some_pos": {}, "matcher_cases": 0, "forms": {}, "known": {}, "stale_forms": {}, "violations": {},
              "known_examples": {}}
     distinct = set()
     nlay = 3 if tier == "quick" else 9
@@ -1124,6 +1227,7 @@ def run(chk):
                        "model; non-trivial = the implementation or the property classifies positively; distinct = distinct (layout kind, "
                        "form or instruction kind, role, specification list, verdicts) resp. distinct matcher cases")
     chk.cov["traces_validated_against_impl"] = stats["evaluations"] + stats["matcher_cases"] - stats["model_mismatch"]
+    stats["noi_positions"] = sorted(stats["noi_positions"])
     chk.cov["distribution"] = stats
     if stats["stale"]:
         chk.cov["stale_known_finding"] = stats["stale_forms"]
